@@ -4,6 +4,7 @@ import gen, vf, files, oracles, cli
 
 
 def run(ctx):
+    gen.INTEGRAL[0] = True          # real-typed weights are integer-valued here: how fractional weights are rounded is C08's subject
     ctx.trusted = ['Coq 8.16.1 kernel; all theorems closed under the global context',
                    'correspondence K-PARSE(affinity): read_affinity_data run in process on generated file bytes (sentinel-filled vector) vs the extracted token-level model; K-INIT: start states at the realization_start hook; K-WRITE for whole --w runs (C13)',
                    'modelled, not verified: iostream extraction of doubles (the model receives pre-parsed numeric tokens), the Python loader (numpy.loadtxt + numpy.diag + ravel: source text only, extension not built)']
@@ -73,7 +74,7 @@ def run(ctx):
         line, m = gen.gen_e2e(sub, 800000 + k, variant=variant, maxit_max=12, r=sub.rint(2, 4))
         e2e.append(line)
         metas[800000 + k] = m
-    res2 = ctx.component('K-INIT', e2e, keys={'status', 'start'})
+    res2 = ctx.component('K-INIT', e2e, keys={'status', 'start:w'})
     if res2:
         for c, m in metas.items():
             tr = res2['impl'].get('E %d' % c)
